@@ -267,3 +267,159 @@ Section VarsP.
     destruct (Nat.eqb_spec (length l) n); [contradiction | reflexivity].
   Qed.
 End VarsP.
+
+(* ================================================================================================================
+   Typed layer: whatever the dtypes of the variable signals, the concatenated design vector is float64; therefore the
+   expanded bound vectors are float64 and hold the given values (converted to float64 once, never truncated), and
+   the written-back states are float64. *)
+Lemma promote_F64_l t : promote F64 t = F64.
+Proof. destruct t; reflexivity. Qed.
+Lemma promote_F64_r t : promote t F64 = F64.
+Proof. destruct t; reflexivity. Qed.
+Lemma promote_comm a b : promote a b = promote b a.
+Proof. destruct a, b; reflexivity. Qed.
+Lemma promote_idem a : promote a a = a.
+Proof. destruct a; reflexivity. Qed.
+
+Lemma set_at_app (pre post : list nat) y x : set_at (pre ++ y :: post) (length pre) x = pre ++ x :: post.
+Proof. induction pre as [|p pre IH]; cbn; [reflexivity | rewrite IH; reflexivity]. Qed.
+
+Section TypedP.
+  Context {A : Type}.
+  Variable d : A.
+  Variable conv : dtype -> dtype -> A -> A.
+
+  Local Notation tstate := (tstate A).
+  Local Notation untag := (untag conv).
+
+  (* ---- the dtype of the design vector: float64, for every list of states *)
+  Lemma concat_loop_dtype (vs : list tstate) : forall i st r,
+    fst (fst st) = F64 -> concat_loop conv i vs st = Some r -> fst (fst r) = F64.
+  Proof.
+    induction vs as [|s vs IH]; intros i st r Hst E; cbn in E.
+    - injection E as <-. exact Hst.
+    - destruct s as [|dt v]; [discriminate|].
+      eapply IH; [|exact E]. destruct st as [[t xs] c]. cbn in Hst. subst t. unfold concat_body, np_append. cbv zeta. cbn [fst snd]. apply promote_F64_l.
+  Qed.
+
+  Theorem concat_t_dtype (vs : list tstate) r : concat_to_array_t conv vs = Some r -> fst (fst r) = F64.
+  Proof. apply concat_loop_dtype. reflexivity. Qed.
+
+  (* ---- ValueError exactly when a state is None *)
+  Lemma concat_loop_none (vs : list tstate) : forall i st,
+    concat_loop conv i vs st = None <-> existsb is_tnone vs = true.
+  Proof.
+    induction vs as [|s vs IH]; intros i st; cbn.
+    - split; discriminate.
+    - destruct s as [|dt v]; cbn; [split; reflexivity | apply IH].
+  Qed.
+
+  Theorem concat_t_none (vs : list tstate) : concat_to_array_t conv vs = None <-> existsb is_tnone vs = true.
+  Proof. apply concat_loop_none. Qed.
+
+  (* ---- the values: the untyped model applied to the states converted to float64 (each entry once) *)
+  Hypothesis conv_F64_id : forall a, conv F64 F64 a = a.
+
+  Lemma map_conv_id (l : list A) : map (conv F64 F64) l = l.
+  Proof. induction l as [|a l IH]; cbn; [reflexivity | rewrite conv_F64_id, IH; reflexivity]. Qed.
+
+  Lemma flat_untag dt v : flat (untag (TVal dt v)) = map (conv dt F64) (flat v).
+  Proof. destruct v; reflexivity. Qed.
+
+  Lemma concat_loop_spec (vs : list tstate) : forall i acc done,
+    existsb is_tnone vs = false -> length done = S i ->
+    concat_loop conv i vs ((F64, acc), done ++ repeat 0 (length vs))
+    = Some ((F64, acc ++ flat_map flat (map untag vs)), done ++ cumfrom (length acc) (lens (map untag vs))).
+  Proof.
+    induction vs as [|s vs IH]; intros i acc done Hn Hd.
+    - cbn. rewrite !app_nil_r. reflexivity.
+    - destruct s as [|dt v]; [discriminate|]. cbn in Hn.
+      cbn [concat_loop length repeat]. unfold concat_body, np_append. cbn [fst snd].
+      rewrite promote_F64_l, map_conv_id, <- Hd, set_at_app.
+      replace (done ++ length (acc ++ map (conv dt F64) (flat v)) :: repeat 0 (length vs))
+        with ((done ++ [length (acc ++ map (conv dt F64) (flat v))]) ++ repeat 0 (length vs))
+        by (rewrite <- app_assoc; reflexivity).
+      rewrite IH; [|exact Hn | rewrite app_length; cbn; lia].
+      cbn [map flat_map lens cumfrom]. rewrite flat_untag, !app_length, <- !app_assoc. reflexivity.
+  Qed.
+
+  Theorem concat_t_spec (vs : list tstate) : existsb is_tnone vs = false ->
+    concat_to_array_t conv vs = Some ((F64, fst (concat_to_array (map untag vs))), snd (concat_to_array (map untag vs))).
+  Proof.
+    intros Hn. pose proof (concat_loop_spec vs 0 [] [0] Hn eq_refl) as E.
+    rewrite concat_spec. exact E.
+  Qed.
+
+  (* ---- bound expansion against a float64 design vector *)
+  Lemma fill_ranges_t_F64 (zero : A) (xs : list A) cum sdt (l : list A) : forall k, k <= length l ->
+    fold_left (fun acc i => assign_range_t conv acc (nth i cum 0) (nth (S i) cum 0) sdt (nth i l d))
+              (seq 0 k) (F64, repeat zero (length xs))
+    = (F64, fold_left (fun acc i => assign_range acc (nth i cum 0) (nth (S i) cum 0) (nth i (map (conv sdt F64) l) d))
+                      (seq 0 k) (repeat zero (length xs))).
+  Proof.
+    induction k as [|k IH]; intros Hk; [reflexivity|].
+    rewrite seq_S, !fold_left_app. cbn [plus fold_left]. rewrite IH by lia.
+    unfold assign_range_t. cbn [fst snd]. f_equal. f_equal.
+    rewrite (nth_indep (map (conv sdt F64) l) d (conv sdt F64 d)) by (rewrite map_length; lia).
+    symmetry. apply map_nth.
+  Qed.
+
+  Theorem expand_t_per_signal (zero : A) (xs : list A) nvars cum sdt (l : list A) : length l = nvars ->
+    expand_bound_t d conv zero (F64, xs) nvars cum (TBList sdt l)
+    = option_map (pair F64) (expand_bound d zero (length xs) nvars cum (BList (map (conv sdt F64) l))).
+  Proof.
+    intros Hl. unfold expand_bound_t, expand_bound. rewrite map_length, Hl, Nat.eqb_refl.
+    unfold fill_ranges_t, fill_ranges, zeros_like. cbn [fst snd]. rewrite map_length.
+    rewrite fill_ranges_t_F64 by lia. cbn [snd].
+    destruct (_ =? length xs); reflexivity.
+  Qed.
+
+  Theorem expand_t_scalar (zero : A) (xs : list A) nvars cum sdt (a : A) :
+    expand_bound_t d conv zero (F64, xs) nvars cum (TBScal sdt a) = Some (F64, repeat (conv sdt F64 a) (length xs)).
+  Proof. unfold expand_bound_t, scal_times_ones_like. cbn [fst snd]. rewrite promote_F64_r. reflexivity. Qed.
+
+  Theorem expand_t_per_variable (zero : A) (xval : tarr A) nvars cum sdt (l : list A) : length l <> nvars ->
+    expand_bound_t d conv zero xval nvars cum (TBList sdt l)
+    = if length l =? length (snd xval) then Some (sdt, l) else None.
+  Proof.
+    intros Hv. unfold expand_bound_t. destruct (Nat.eqb_spec (length l) nvars); [contradiction | reflexivity].
+  Qed.
+
+  Theorem expand_move_t_per_signal (zero : A) (xs : list A) nvars cum sdt (l : list A) : length l = nvars ->
+    expand_move_t d conv zero (F64, xs) nvars cum (TBList sdt l)
+    = Some (F64, fill_ranges d zero (length xs) cum (map (conv sdt F64) l)).
+  Proof.
+    intros Hl. unfold expand_move_t. rewrite Hl, Nat.eqb_refl.
+    unfold fill_ranges_t, fill_ranges, zeros_like. cbn [fst snd]. rewrite map_length.
+    rewrite fill_ranges_t_F64 by lia. reflexivity.
+  Qed.
+
+  (* ---- the written-back states have the dtype of the design vector *)
+  Theorem writeback_t_dtype (xval : tarr A) cum nvars s :
+    In s (writeback_t d xval cum nvars) -> exists v, s = TVal (fst xval) v.
+  Proof. unfold writeback_t. intros H. apply in_map_iff in H as [v [<- _]]. exists v. reflexivity. Qed.
+
+  (* ---- the pipeline: states of ANY dtypes, a per-signal bound of ANY dtype: the design vector is float64 and every
+     entry of the expanded bound on the range of signal i is the i-th given value converted to float64 *)
+  Theorem typed_per_signal_bound (vs : list tstate) (sdt : dtype) (l : list A) (zero : A) :
+    existsb is_tnone vs = false -> length l = length vs ->
+    exists xs cum e,
+      concat_to_array_t conv vs = Some ((F64, xs), cum) /\
+      expand_bound_t d conv zero (F64, xs) (length vs) cum (TBList sdt l) = Some (F64, e) /\
+      length e = length xs /\
+      (forall i j, i < length vs -> nth i cum 0 <= j < nth (S i) cum 0 -> nth j e d = conv sdt F64 (nth i l d)) /\
+      (forall s, In s (writeback_t d (F64, xs) cum (length vs)) -> exists v, s = TVal F64 v).
+  Proof.
+    intros Hn Hl. pose proof (concat_t_spec vs Hn) as E. rewrite concat_spec in E. cbn [fst snd] in E.
+    assert (Lu : length (map untag vs) = length vs) by apply map_length.
+    assert (Lm : length (map (conv sdt F64) l) = length (map untag vs)) by (rewrite !map_length; exact Hl).
+    destruct (expand_per_signal d (map untag vs) (map (conv sdt F64) l) zero Lm) as [e [He [Le Hr]]].
+    exists (flat_map flat (map untag vs)), (cumlens (map untag vs)), e.
+    split; [exact E|]. split.
+    { rewrite expand_t_per_signal by exact Hl. rewrite length_flat_map, <- Lu. rewrite He. reflexivity. }
+    split; [rewrite Le, length_flat_map; reflexivity|]. split.
+    - intros i j Hi Hj. rewrite (Hr i j) by (rewrite ?Lu; assumption).
+      rewrite (nth_indep _ d (conv sdt F64 d)) by (rewrite map_length; lia). apply map_nth.
+    - intros s Hs. apply (writeback_t_dtype _ _ _ _ Hs).
+  Qed.
+End TypedP.
